@@ -23,6 +23,7 @@ use crate::{
     duration::Duration,
     entity::RTPSEntity,
     guid::{EntityId, GuidPrefix, GUID},
+    locator::Locator,
   },
 };
 use super::{
@@ -744,6 +745,60 @@ impl DiscoveryDB {
       .map(|(_guid, drd)| drd)
       .filter(|drd| drd.subscription_topic_data.topic_name() == topic_name)
       .cloned()
+      .collect()
+  }
+
+  fn participant_default_locators(&self, guid_prefix: GuidPrefix) -> (Vec<Locator>, Vec<Locator>) {
+    self
+      .find_participant_proxy(guid_prefix)
+      .map(|pp| {
+        (
+          pp.default_unicast_locators.clone(),
+          pp.default_multicast_locators.clone(),
+        )
+      })
+      .unwrap_or_default()
+  }
+
+  /// All currently known discovered writers on a topic, whichever participant
+  /// they belong to. Locators are defaulted from the participant, like
+  /// `update_publication` does.
+  pub fn writers_on_topic(&self, topic_name: &str) -> Vec<DiscoveredWriterData> {
+    self
+      .external_topic_writers
+      .values()
+      .filter(|dwd| dwd.publication_topic_data.topic_name == topic_name)
+      .map(|dwd| {
+        let (unicast, multicast) =
+          self.participant_default_locators(dwd.writer_proxy.remote_writer_guid.prefix);
+        DiscoveredWriterData {
+          writer_proxy: WriterProxy::from(RtpsWriterProxy::from_discovered_writer_data(
+            dwd, &unicast, &multicast,
+          )),
+          ..dwd.clone()
+        }
+      })
+      .collect()
+  }
+
+  /// All currently known discovered readers on a topic, whichever participant
+  /// they belong to. Locators are defaulted from the participant, like
+  /// `update_subscription` does.
+  pub fn readers_on_topic(&self, topic_name: &str) -> Vec<DiscoveredReaderData> {
+    self
+      .external_topic_readers
+      .values()
+      .filter(|drd| drd.subscription_topic_data.topic_name() == topic_name)
+      .map(|drd| {
+        let (unicast, multicast) =
+          self.participant_default_locators(drd.reader_proxy.remote_reader_guid.prefix);
+        DiscoveredReaderData {
+          reader_proxy: ReaderProxy::from(RtpsReaderProxy::from_discovered_reader_data(
+            drd, &unicast, &multicast,
+          )),
+          ..drd.clone()
+        }
+      })
       .collect()
   }
 
